@@ -89,6 +89,7 @@ TNeg(a) == [t |-> "neg", a |-> a]
 TAbs(a) == [t |-> "abs", a |-> a]
 TPowQ(a, x) == [t |-> "powq", a |-> a, n |-> x[1], d |-> x[2]]
 TObs(p) == [t |-> "obs", p |-> p]
+TP10(a) == [t |-> "p10", a |-> a]                       \* 10 ** a
 RECURSIVE TFac(_)
 TFac(ex) == IF ex = <<>> THEN TQ(ROne)
             ELSE TMul(TPowQ(TTab(Head(ex).u), Head(ex).e), TFac(Tail(ex)))
@@ -99,11 +100,23 @@ TBase(a) == TMul(TQ(a.v), TFac(a.ex))
 BinOps == {"add", "sub", "mul", "div"}
 PowForms == {"int", "pair", "float", "fraction", "np.float64", "np.float32", "np.int64", "np.power", "np.sqrt", "np.cbrt"}
 
+\* np.linspace / np.logspace (documentation: "units of the first quantity-argument are preserved"; a plain number is
+\* read in the units of the quantity argument): n points whose end points are the two arguments - for logspace the
+\* exponents of 10 - re-expressed in the result units.  Element k of n (k = 0..n-1):
+SpaceOps == {"np.linspace", "np.logspace"}
+SpaceN == 3
+\* (convex combination, so that each end point is exactly an argument whatever the ratio of their sizes)
+LinBaseT(a, b, k) == TAdd(TMul(TQ(R(SpaceN - 1 - k, SpaceN - 1)), TBase(a)), TMul(TQ(R(k, SpaceN - 1)), TBase(b)))
+SpaceValT(op, a, b, k, ex) ==
+  LET x == TDiv(LinBaseT(a, b, k), TFac(ex)) IN IF op = "np.logspace" THEN TP10(x) ELSE x
+SpaceBaseT(op, a, b, k, ex) == TMul(SpaceValT(op, a, b, k, ex), TFac(ex))
+
 \* inputs on which the statement says nothing (division by zero, 0**negative, root of a negative)
 Unspecified(op, a, b, n) ==
   \/ op = "div" /\ RIsZero(b.v)
   \/ op = "pow" /\ RIsZero(a.v) /\ RSign(n) <= 0
   \/ op = "pow" /\ RSign(a.v) < 0 /\ ~RIsInt(n)
+  \/ op \in SpaceOps /\ Dim(a.ex) # Dim(b.ex)      \* end points of different dimension: a matter of the conversion rules (C04)
 
 Refused(op, a, b) == op \in {"add", "sub"} /\ Dim(a.ex) # Dim(b.ex)
 
@@ -112,7 +125,7 @@ Refused(op, a, b) == op \in {"add", "sub"} /\ Dim(a.ex) # Dim(b.ex)
 NEx(a) == Cancel(a.ex)
 
 ResEx(op, a, b, n) ==
-  CASE op \in {"add", "sub", "neg"} -> NEx(a)
+  CASE op \in {"add", "sub", "neg"} \cup SpaceOps -> NEx(a)
     [] op = "mul" -> Cancel(ExMerge(NEx(a), NEx(b), 1))
     [] op = "div" -> Cancel(ExMerge(NEx(a), NEx(b), -1))
     [] op = "pow" -> Cancel(ExScale(NEx(a), n))
@@ -124,10 +137,12 @@ ResBaseT(op, a, b, n) ==
     [] op = "div" -> TDiv(TBase(a), TBase(b))
     [] op = "neg" -> TNeg(TBase(a))
     [] op = "pow" -> TPowQ(TBase(a), n)
+    [] op \in SpaceOps -> SpaceBaseT(op, a, b, 0, NEx(a))          \* first element; all elements: SpaceBaseT(.., k, ..)
 
 \* exact base-dimension value where the spec can compute it
 BaseQ(a) == RMul(a.v, FacQ(a.ex))
 ResExactOK(op, a, b, n) ==
+  /\ op \notin SpaceOps
   /\ ExactOK(a.ex) /\ (op \in BinOps => ExactOK(b.ex))
   /\ (op = "pow" => RIsInt(n) /\ RAbsI(n[1]) <= 2)
 ResBaseQ(op, a, b, n) ==
